@@ -5,6 +5,10 @@ HERE = os.path.dirname(os.path.dirname(os.path.abspath(__file__)))
 ALL = ["C%02d" % i for i in range(1, 21)]
 # id -> (technique, level text, level note, design ref)
 CHECKS = {
+ "C16": ("bounded-exhaustive enumeration of shifts and edit scripts against the real sender (reference-computed sums) and of whole sessions with the real generator; literal bytes counted from the decoded token stream",
+         "every shift 0..B for B in {8,32,700}, every edit script of depth <=2 over {insert,delete,replace} x 5 lengths x 9 offsets, identical/prepend/append/all block permutations, and real-generator sessions at 28 KB/600 KB (thorough: 1-20 MiB); each stream must denote the target and stay within inserted + 3B per edit + B literal bytes (0 for identical files and permutations)",
+         "bound has 3B slack per edit; content is counter-hash (no accidental repeats); efficiency on low-entropy data is not demanded",
+         "DESIGN.md §5 C16"),
  "C02": ("bounded-exhaustive enumeration of (target, basis, block layout) triples against the real sender and of (basis, token stream) pairs against the real receiver, judged by an independent codec/denotation (refproto)",
          "sender: all targets x all bases over a 2-3 letter alphabet (bytes >= 0x80 included) up to length 6/8, block lengths 1..4, strong length 16 and 2, plus forged sum sets whose strong sums agree in only k<16 bytes, plus (thorough) structured layouts B=700..131072 from all edit scripts of depth <=3; receiver: every token stream of <=3/4 tokens over literals and all block references for every basis of length <=4 and B=1..3; every response/file compared with the reference denotation and MD4(seed||target)",
          "trusts refproto (x/crypto MD4, weak checksum by definition); strong-sum collisions are modelled by forged sums rather than found",
